@@ -1,6 +1,7 @@
 import FrappyDrive.DTypes
 import FrappyModel.Datatypes.Datainfo
 import FrappyModel.Datatypes.Compat
+import FrappyModel.Datatypes.Variants
 import FrappyModel.Datatypes.CopyHeap
 import FrappyModel.Datatypes.Import
 import FrappyModel.Spec.C03
@@ -16,6 +17,7 @@ Line-protocol glue for C03.  Annotated trees (`DInfo`) are the trees of `DTypes.
       → {"model":{"tree2":T|err,"shared":[..]},"judge":[..]}
   {"k":"compat","a":T,"b":T,"impl":{"verdict":"pass"|"bad"|{"other":c},"witnesses":[{"v":V,"acc":b},..]}}
       → {"model":"pass"|"bad","nested":b,"wf":b,"judge":[..]}
+      (trees of a pair may carry "cls":"text" on a string node, "cls":"limits" | "status" on a tuple node: `CType`)
   {"k":"probe","di":T,"mode":"wire"|"py","cand":V}  → {"model":O}       (model outcome of import_value / validate)
 -/
 namespace Frappy.Drive.C03
@@ -68,6 +70,43 @@ partial def dinfoToJson : DInfo Float → Json
   | .struct ms opt c => Json.mkObj [("t", "struct"),
       ("members", jarr (ms.map (fun (k, v) => jarr [.str k, dinfoToJson v]))),
       ("optional", jstrs opt), ("client", .bool c)]
+
+/-- a tree with class marks: `"cls":"text"` on a string node (`min` 0, not UTF-8), `"cls":"limits"` on a tuple node with
+two identical members, `"cls":"status"` on a tuple node (enum, unlimited string) -/
+partial def ctypeOfJson (j : Json) : R (CType Float) := do
+  let t ← fldStr j "t"
+  let cls : String := match j.getObjVal? "cls" with
+    | .ok (.str c) => c
+    | _ => ""
+  match t, cls with
+  | "string", "text" =>
+    if (← fldNat j "min") != 0 || (← fldBool j "utf8") then throw "TextType has minchars 0 and is not UTF-8"
+    return .text (← fldNat j "max")
+  | "tuple", "limits" =>
+    match ← fldArr j "elems" with
+    | [x, y] =>
+      if x.compress != y.compress then throw "LimitsType has two identical members"
+      return .limits (← ctypeOfJson x)
+    | _ => throw "LimitsType has two members"
+  | "tuple", "status" =>
+    match ← fldArr j "elems" with
+    | [x, y] =>
+      match ← dtypeOfJson x, ← dtypeOfJson y with
+      | .enum ms, .string 0 mx false =>
+        if mx != unlimitedChars then throw "StatusType has an unlimited string"
+        return .status ms
+      | _, _ => throw "StatusType is (enum, string)"
+    | _ => throw "StatusType has two members"
+  | "array", "" => return .array (← ctypeOfJson (← fld j "elem")) (← fldNat j "min") (← fldNat j "max")
+  | "tuple", "" => return .tuple (← (← fldArr j "elems").mapM ctypeOfJson)
+  | "struct", "" =>
+    let ms ← (← fldArr j "members").mapM (fun kv => do
+      match ← arr kv with
+      | [k, v] => return ((← k.getStr?), (← ctypeOfJson v))
+      | _ => throw "bad struct member")
+    return .struct ms (← fldStrs j "optional") (← fldBool j "client")
+  | _, "" => return .leaf (← dtypeOfJson j)
+  | _, c => throw s!"class mark {c} on a node of kind {t}"
 
 def errToJson : Err → Json
   | .other c => Json.mkObj [("other", .str c)]
@@ -159,17 +198,22 @@ def handle (j : Json) : R Json := do
       ("wf", .bool t.erase.wfB),
       ("judge", jstrs (judgeDerived (← derivedOfJson impl) ++ judgeMutation m))]
   | "compat" =>
-    let a ← dtypeOfJson (← fld j "a")
-    let b ← dtypeOfJson (← fld j "b")
+    let a ← ctypeOfJson (← fld j "a")
+    let b ← ctypeOfJson (← fld j "b")
     let impl ← fld j "impl"
     let verdict ← verdictOfJson (← fld impl "verdict")
     let ws ← (← fldArr impl "witnesses").mapM (fun w => do
       return ({ value := ← pvalOfJson (← fld w "v"), accepted := ← fldBool w "acc" } : Witness Float))
-    let m : Json := match compatible a b with
+    let m : Json := match compatibleC a b with
       | .ok _ => .str "pass"
       | .error e => errToJson e
-    return Json.mkObj [("model", m), ("nested", .bool (nestedB a b)), ("wf", .bool (a.wfB && b.wfB)),
-      ("judge", jstrs (judgeCompat a b verdict ws))]
+    -- the model of the second type's `validate` on every witness (correspondence of `cvalidate`)
+    let macc := ws.map (fun w => match cvalidate b w.value none with
+      | .ok _ => true
+      | .error _ => false)
+    return Json.mkObj [("model", m), ("nested", .bool (nestedCB a b)), ("wf", .bool (a.wfB && b.wfB)),
+      ("macc", Json.arr (macc.map Json.bool).toArray), ("inset", Json.arr (ws.map (fun w => Json.bool (inSetCB a w.value))).toArray),
+      ("judge", jstrs (judgeCompatC a b verdict ws))]
   | "probe" =>
     let t ← dinfoOfJson (← fld j "di")
     let mode ← fldStr j "mode"
